@@ -84,16 +84,27 @@ def finish(name, src, meta, result, ok):
     if ok:
         dst = f"/verif/seeded/{name}"
         os.makedirs(dst, exist_ok=True)
-        shutil.copy(os.path.join(src, "patch.diff"), os.path.join(dst, "patch.diff"))
-        shutil.copy(os.path.join(src, "demo.rs"), os.path.join(dst, "demo.rs"))
+        if os.path.abspath(src) != os.path.abspath(dst):
+            shutil.copy(os.path.join(src, "patch.diff"), os.path.join(dst, "patch.diff"))
+            shutil.copy(os.path.join(src, "demo.rs"), os.path.join(dst, "demo.rs"))
         out = {"breaks_property": meta.get("property"), "summary": meta.get("summary"), "needs_to_manifest": meta.get("needs_to_manifest"),
                "author": "independent sub-agent given only the property text and a scratch worktree", "agent_report": meta, "confirmation": result, "checks": {}}
         old = os.path.join(dst, "meta.json")
         if os.path.exists(old):
             try:
-                out["checks"] = json.load(open(old)).get("checks", {})
+                prev = json.load(open(old))
+                out["checks"] = prev.get("checks", {})
+                # a re-confirmation (patch rebased onto later fix commits) keeps who wrote the change and the notes
+                for k in ("author", "note"):
+                    if k in prev:
+                        out[k] = prev[k]
+                if prev.get("confirmation", {}).get("repo_head") != result.get("repo_head"):
+                    out["previous_confirmation"] = prev.get("confirmation")
             except Exception:
                 pass
+        if os.path.exists(os.path.join(src, "patch.orig.diff")):
+            shutil.copy(os.path.join(src, "patch.orig.diff"), os.path.join(dst, "patch.orig.diff"))
+            out["rebased"] = "patch.diff is the change rebased (by the verifier, conflicts resolved by hand, intent kept) onto the later fix: commits of /repo; patch.orig.diff is what the sub-agent delivered against " + str((out.get("previous_confirmation") or {}).get("repo_head", "an earlier tree"))
         json.dump(out, open(old, "w"), indent=1)
         print(f"CONFIRMED {name}: stored under {dst}")
         return 0
